@@ -68,7 +68,7 @@ func (c09) NumCases(tier string, _ int64) int {
 }
 func (c09) Exhaustive(string) bool { return false }
 func (c09) Floors(string) []runner.Floor {
-	return []runner.Floor{{Stat: "changes_delivered_3_ways", Min: 20000}, {Stat: "hostile_inputs", Min: 200000}, {Stat: "snapshot_forks", Min: 1000}, {Stat: "hostile_packs_sent_to_server", Min: 1000}}
+	return []runner.Floor{{Stat: "changes_delivered_3_ways", Min: 20000}, {Stat: "hostile_inputs", Min: 200000}, {Stat: "snapshot_forks", Min: 1000}, {Stat: "hostile_packs_sent_to_server", Min: 1000}, {Stat: "large_snapshots_round_tripped", Min: 4}}
 }
 
 type c09Worker struct {
@@ -1182,7 +1182,9 @@ func truncBytes(b []byte, n int) []byte {
 
 func (w *c09Worker) Run(idx int) runner.CaseResult {
 	res := runner.CaseResult{Case: fmt.Sprintf("c09-%d", idx)}
-	if idx%16 == 15 {
+	if idx%1000 == 501 {
+		w.runLarge(&res, idx)
+	} else if idx%16 == 15 {
 		w.runRPC(&res, idx)
 	} else if idx%4 == 3 {
 		w.runHostile(&res, idx, w.seed)
@@ -1209,6 +1211,10 @@ func (w *c09Worker) Replay(data json.RawMessage) runner.CaseResult {
 				}
 			}
 		}
+		return res
+	}
+	if rp.Family == "large" {
+		w.runLarge(&res, rp.Idx)
 		return res
 	}
 	if rp.Family == "rpc" {
